@@ -7,8 +7,10 @@ import "sync/atomic"
 // Scheduling points for the verification harness (/verif). Compiled only with
 // -tags verif. The harness installs a function that is called at every point
 // with the reader and the name of the point; it may park the calling goroutine
-// (all points except "replaced", which is reported while the reader's mutex is
-// held, sit where no lock is held).
+// (all points except "replaced", "spawned" and "relock-held" sit where no lock is
+// held; these three are reported while the reader's mutex is held: "replaced"
+// before and "spawned" after TryToReplaceLoop has started the new loop,
+// "relock-held" between readingMessages.Store(true) and the Unlock of a loop).
 
 var verifYieldFn atomic.Pointer[func(reader any, point string)]
 
